@@ -247,7 +247,7 @@ def judge(ctx, binary, scripts, traces, tag, seen):
         for kf in (0, 1):
             e2 = [dict(ev[0], kf=kf)] + ev[1:]
             try:
-                acc, rej, _ = validate_history_trace(ctx, SPEC, "DpqITrace", e2, tag="%s-i%d-%d" % (tag, i, kf), max_rounds=1, timeout=400, deque=True)
+                acc, rej, _ = validate_history_trace(ctx, SPEC, "DpqITrace", e2, tag="%s-i%d-%d" % (tag, i, kf), max_rounds=1, timeout=400 if ctx.thorough else 60, deque=True)
             except Broken as b:          # the search ran out of time or memory: no statement about this recording
                 return "inconclusive"
             if not rej:
